@@ -236,6 +236,11 @@ TW('C06', 'twin-partition-guard-respelled', DS, "      if 0 < block_size < d:\n 
 TW('C06', 'twin-merge-reversed-list', DS, "    for (i, indices) in reversed(self._splits):", "    for (i, indices) in reversed(list(self._splits)):")
 TW('C06', 'twin-large-lt-negated', TS, "  dims = [min(dim, options.block_size) for dim in param_shape]", "  dims = [dim if dim < options.block_size else options.block_size for dim in param_shape]")
 
+M('C06', 'merge-limit-test-inverted', DS, "    if product * d <= max_dim:", "    if product * d >= max_dim:")
+M('C06', 'merge-limit-tests-other-product', DS, "    if product * d <= max_dim:\n      product *= d", "    if product * d <= max_dim:\n      product *= d * d")
+TW('C06', 'twin-merge-limit-mirrored-temp', DS, "    if product * d <= max_dim:\n      product *= d", "    candidate = d * product\n    if not max_dim < candidate:\n      product = candidate")
+M('C06', 'unmerge-slice-from-one', RS, "      merged = update[tuple(slice(0, m) for m in shapes.merged_shape)]", "      merged = update[tuple(slice(1, m) for m in shapes.merged_shape)]")
+
 # ------------------------------------------------------------------ C07
 M(['C07', 'C13'], 'F2-unbatch-squeeze', DS, "    v_array = jnp.squeeze(v_array, axis=0)\n", "    v_array = jnp.squeeze(v_array)\n")
 M('C07', 'F5-avg-grad-masked', DS, "    new_avg_grad = state.avg_grad\n    if not _skip_preconditioning(param):", "    new_avg_grad = optax.MaskedNode()\n    if not _skip_preconditioning(param):")
